@@ -583,6 +583,12 @@ class C04(Property):
         "Flatland.C04.Proofs.signals_spec",
     ]
     generated_obligations = ["Flatland.C04.Proofs.pyTables_ok"]
+    level_text = "proof"
+    level_note = ("set_coherent (flag/value/u/signal) and signals_spec are full for every kind incl. opaque Float/Decimal; set_total is partial "
+                  "(NoHuge; refuted in full by KF-C04-a); reset_text / reset_value / norm_idem cover String, Integer/Long (any width), Boolean, "
+                  "Date, Time, DateTime and Enum/Constrained over them, partial in Coherent / CoherentNone / ExactInput (refuted in full by "
+                  "KF-C04-c / KF-C04-b); for Float and Decimal 'never raises' and 'u stable under re-set' are checked by correspondence only")
+    technique = "Lean 4 theorems about a hand-written model + regenerated Unicode/limit tables + differential correspondence + Python oracle"
     trusted_base = [
         "CPython str.strip, int(str), '%i'/'%0Ni', str(obj), re (three Temporal regexes), datetime.date/time validity are re-implemented "
         "as Lean functions over tables regenerated from the running interpreter (Unicode whitespace, Nd decades, int digit limit); "
